@@ -641,7 +641,53 @@ func recipeMalformed(c *ctx) {
 			}
 		}
 		c.Oracle("C06", id2, ok, "to-diags", what)
+		// the same with a target that already holds values (written by an earlier call) whose types are
+		// then removed, in the declared types and in the types the held values carry
+		_, pre := c.To("malformed-to-pre", c.p.b.GenGo(c.rt, r.Fork(6), MFull, 0), EmptyOf(c.objTy))
+		if pre.Panic == "" && len(pre.Diags) == 0 {
+			target := retype(pre.Obj, pt)
+			id3, tp := c.To("malformed-to-populated", v, target)
+			if tp.Panic != "" {
+				c.Oracle("C06", id3, false, "panic-to", "CopyTo panicked on a populated target with attribute types removed: "+tp.Panic)
+			} else {
+				got := fullSet(tp.Diags)
+				okp := dsetStr(got) == dsetStr(full)
+				whatp := ""
+				if !okp {
+					whatp = fmt.Sprintf("populated target, %d types removed: diagnostics %s, expected %s", removed, dsetStr(got), dsetStr(full))
+				}
+				c.Oracle("C06", id3, okp, "to-diags-populated", whatp)
+			}
+		}
 	}
+}
+
+// retype gives a value the (pruned) type pt: object values carry pt's attribute types, element types
+// follow; values are kept, including those of attributes whose type was removed.
+func retype(v *TV, pt *TY) *TV {
+	if v == nil || pt == nil {
+		return v
+	}
+	o := CloneTV(v)
+	switch o.K {
+	case "ov":
+		if pt.K == "obj" {
+			o.Ty = pt
+			for i, k := range o.Keys {
+				if at := pt.AttrTy(k); at != nil {
+					o.Elems[i] = retype(o.Elems[i], at)
+				}
+			}
+		}
+	case "lv", "mv":
+		if (pt.K == "list" && o.K == "lv") || (pt.K == "map" && o.K == "mv") {
+			o.Ty = pt.E
+			for i := range o.Elems {
+				o.Elems[i] = retype(o.Elems[i], pt.E)
+			}
+		}
+	}
+	return o
 }
 
 // ---------------------------------------------------------------------------------------
